@@ -226,6 +226,7 @@ func (srv *Srv) String() string {
 }
 
 func (req *SrvReq) process() {
+	verifPoint("proc_start", req.Conn, req)
 	req.Lock()
 	flushed := (req.status & reqFlush) != 0
 	if !flushed {
@@ -237,12 +238,14 @@ func (req *SrvReq) process() {
 		req.Respond()
 	}
 
+	verifPoint("proc_dispatch", req.Conn, req)
 	if rop, ok := (req.Conn.Srv.ops).(SrvReqProcessOps); ok {
 		rop.SrvReqProcess(req)
 	} else {
 		req.Process()
 	}
 
+	verifPoint("proc_end", req.Conn, req)
 	req.Lock()
 	req.status &= ^reqWork
 	if req.status&reqResponded == 0 {
@@ -384,6 +387,7 @@ func (req *SrvReq) Respond() {
 		return
 	}
 
+	verifPoint("resp_unlink", conn, req)
 	/* remove the request and all requests flushing it */
 	conn.Lock()
 	nextreq := req.prev
@@ -410,16 +414,19 @@ func (req *SrvReq) Respond() {
 	}
 	conn.Unlock()
 
+	verifPoint("resp_post", conn, req)
 	if rop, ok := (req.Conn.Srv.ops).(SrvReqProcessOps); ok {
 		rop.SrvReqRespond(req)
 	} else {
 		req.PostProcess()
 	}
 
+	verifPoint("resp_enq", conn, req)
 	if (status & reqFlush) == 0 {
 		conn.reqout <- req
 	}
 
+	verifPoint("resp_next", conn, req)
 	// process the next request with the same tag (if available)
 	if nextreq != nil {
 		go nextreq.process()
